@@ -463,6 +463,7 @@ class Check:
         for f in self.known:
             print("KNOWN-FINDING: property=%s %s" % (self.pid, f["text"]))
         rdir = os.path.join(VERIF, "replays", self.pid)
+        shutil.rmtree(rdir, ignore_errors=True)
         n = 0
         seen = set()
         for replay, no_input in self.violations:
